@@ -14,8 +14,8 @@ with warnings.catch_warnings():
     import pandas as pd  # noqa
     import acnportal  # noqa
 
-assert os.path.realpath(acnportal.__file__).startswith(REPO + os.sep), (
-    "acnportal imported from %s, expected under %s" % (acnportal.__file__, REPO))
+if not os.path.realpath(acnportal.__file__).startswith(REPO + os.sep):      # (not an assert: the checks also run under python -O)
+    raise ImportError("acnportal imported from %s, expected under %s" % (acnportal.__file__, REPO))
 
 from acnportal import acnsim  # noqa
 from acnportal.acnsim import (Simulator, EventQueue, PluginEvent, UnplugEvent, RecomputeEvent, Event,  # noqa
